@@ -24,7 +24,13 @@ def run(res, replay=None):
         rp = json.load(open(replay))
         cases = [c02.one_case(src, rp["recipe"]["case_index"], seed, tier)]
     else:
-        cases = c02.campaign(src, seed, tier)
+        try:
+            cases = c02.campaign(src, seed, tier)
+        except c02.BaseNotClean as ex:
+            res.violation("oracle", {"recipe": ex.recipe, "note": "e2fsck -fn reports problems on an undamaged filesystem (so a repair run would change a healthy filesystem and not converge): " + ex.msg[-400:]},
+                          signature="c01:base:" + ex.recipe["base"])
+            res.add_obligation("campaign ran", False)
+            return
     bad = []
     stats = {"rc_y": {}, "claims_success": 0, "second_run_clean": 0, "input_inconsistent": 0}
     lines = [c02.verdict_model(mexe, "y", c["probs_y"], changed=True) for c in cases]
@@ -56,6 +62,8 @@ def run(res, replay=None):
                 xl = "leak"          # the second run finds nothing but blocks that are marked in use and belong to nobody
             if c.get("shadow2") and c["rc_n2"] == 0 and not c["probs_n2"]:
                 xl = "shadow"
+            if c.get("ea_cleared"):
+                xl = "eacleared"
             bad.append((rec, why, c["out_n2"], xl))
         else:
             stats["second_run_clean"] += 1
@@ -72,10 +80,12 @@ def run(res, replay=None):
             return "c01:second-run-finds-only-leaked-blocks"
         if xl == "shadow":
             return "c01:uninit-group-metadata-bit-clear-on-disk"
+        if xl == "eacleared":
+            return "c01:cleared-inode-keeps-its-attribute-block-reference"
         if xl and "invalid journal" in out:
             return "c01:journal-cross-linked-superblock-lost"
         return "c01:" + hashlib.sha256(json.dumps(rec["operators"]).encode()).hexdigest()[:12]
-    bad.sort(key=lambda b: 1 if sig(*b) in ("c01:journal-cross-linked-superblock-lost", "c01:second-run-finds-only-leaked-blocks", "c01:uninit-group-metadata-bit-clear-on-disk") else 0)
+    bad.sort(key=lambda b: 1 if sig(*b) in ("c01:journal-cross-linked-superblock-lost", "c01:second-run-finds-only-leaked-blocks", "c01:uninit-group-metadata-bit-clear-on-disk", "c01:cleared-inode-keeps-its-attribute-block-reference") else 0)
     for rec, why, out, xl in bad[:3]:
         res.violation("oracle", {"recipe": rec, "note": why, "second_run_output_tail": out[-400:], "journal_blocks_cross_linked_in_input": xl},
                       signature=sig(rec, why, out, xl))
